@@ -51,6 +51,14 @@ def parts(tier, seed=0):
     q = tier != "thorough"
     P = []
     R, O, M, RM = G.arg_kind("req"), G.arg_kind("opt", default="typed"), G.arg_kind("multi"), G.arg_kind("reqmulti")
+    if tier == "smoke":  # development aid only (not a claimed bound): ~60 k lines
+        p = dict(dom_n=3, arg_dom_n=1, multi_len=2, arg_multi_len=2, with_null=True)
+        a = [(G.mk_spec(G.NAMES1, [k], [R, M]), p) for k in G.all_option_kinds()[::3]]
+        p = dict(dom_n=1, arg_dom_n=1, multi_len=1, arg_multi_len=1)
+        a += [(G.mk_spec(G.NAMES0, [k1, k2], [R]), p) for k1 in SHORTED for k2 in SHORTED]
+        a += [(G.mk_spec(G.NAMES2, [G.opt_kind("opt")], _akinds(sh, ["string"] * len(sh))), dict(p, arg_dom_n=2, arg_multi_len=2))
+              for sh in G.arg_shapes(1)]
+        return [("smoke", a)]
 
     # A: every option kind alone (value mode x type x nullable x short presence x default), full value domain
     a = []
@@ -59,7 +67,8 @@ def parts(tier, seed=0):
         ctxs += [(G.NAMES2, [R, O]), (G.NAMES1, [RM])]
     for k in G.all_option_kinds():
         for nm, ak in ctxs:
-            a.append((G.mk_spec(nm, [k], ak), dict(dom_n=3 if q else 5, arg_dom_n=1, multi_len=2 if q else 3, arg_multi_len=2)))
+            a.append((G.mk_spec(nm, [k], ak), dict(dom_n=3 if q else 5, arg_dom_n=1, multi_len=2 if q else 3, arg_multi_len=2,
+                                                   with_null=True)))
     P.append(("A:each-option-kind-alone", a))
 
     # B: all ordered pairs of structural kinds: grouping, value lookahead next to another option, orderings
